@@ -142,9 +142,9 @@ Fixpoint s_replies (n : nat) (f : nat -> answer) (ss : sess) : sess :=
   | S m => s_replies m (fun i => f (S i)) (s_reply (f O) ss)
   end.
 
-Lemma fire_false_completed ss a' :
+Lemma fire_completed ss a' :
   on_complete (ag ss) = true -> on_complete a' = false ->
-  on_complete (ag (fire false ss a')) = false /\ In (owner ss) (ids (fire false ss a')).
+  In (owner ss) (ids (fire true ss a')).
 Proof.
   intros H1 H2. destruct ss as [a o c n ev]; cbn [ag owner] in *. unfold fire; cbn [ag owner owner_act next_id events].
   rewrite H1, H2. cbn [andb negb]. destruct (res_of a') as [st u].
@@ -169,7 +169,7 @@ Qed.
 
 Lemma replies_complete : forall n ss f c0,
   running (ag ss) -> ok_stream f -> good c0 f (ag ss) n ->
-  exists k, on_complete (ag (s_replies k f ss)) = false /\ In (owner ss) (ids (s_replies k f ss)).
+  exists k, In (owner ss) (ids (s_replies k f ss)).
 Proof.
   induction n as [|n IH]; intros ss f c0 Hr Hf Hg.
   - destruct Hg as [G1 _]. cbn [run] in G1. destruct (running_facts _ Hr) as [_ [A _]]. contradiction.
@@ -177,19 +177,18 @@ Proof.
     destruct (step_wf (ag ss) (f O) Hr (Hf O)) as [[Hr' Hc]|Hfin].
     + assert (Hs : s_reply (f O) ss = mkSess (step false (ag ss) (f O)) (owner ss) (owner_act ss) (next_id ss) (events ss)).
       { unfold s_reply, fire. destruct (running_facts _ Hr') as [E _]. rewrite Hoc, E. reflexivity. }
-      destruct (IH (s_reply (f O) ss) (shift f) c0) as [k [K1 K2]].
+      destruct (IH (s_reply (f O) ss) (shift f) c0) as [k K2].
       * rewrite Hs; exact Hr'.
       * apply ok_shift; exact Hf.
       * rewrite Hs; cbn [ag]. apply good_unstep. exact Hg.
-      * exists (S k). cbn [s_replies]. fold (shift f). split; [exact K1|]. rewrite Hs in K2 at 1. exact K2.
+      * exists (S k). cbn [s_replies]. fold (shift f). rewrite Hs in K2 at 1. exact K2.
     + destruct Hfin as [_ [_ [_ [_ F5]]]].
-      destruct (fire_false_completed ss _ Hoc F5) as [K1 K2].
-      exists 1%nat. cbn [s_replies]. split; [exact K1 | exact K2].
+      exists 1%nat. cbn [s_replies]. exact (fire_completed ss _ Hoc F5).
 Qed.
 
 Lemma running_completes ss f :
   SI ss -> on_complete (ag ss) = true -> ok_stream f ->
-  exists k, on_complete (ag (s_replies k f ss)) = false /\ In (owner ss) (ids (s_replies k f ss)).
+  exists k, In (owner ss) (ids (s_replies k f ss)).
 Proof.
   intros [[Hr|[Hi _]] _] Hoc Hf; [|congruence].
   destruct (term_running (completions (ag ss)) (ag ss) Hr eq_refl f Hf) as [n Hg].
